@@ -901,6 +901,13 @@ theorem remapDev_sim {s : St} (hK : K s) (d : List DevCfg) : DevSim s.w d (remap
 /-- every pair of a remapping relates a value to itself or to an equally observed value -/
 def PairsSim (w : World) (m : List (Nat × Nat)) : Prop := ∀ p ∈ m, p.2 = p.1 ∨ ValSim w p.1 p.2
 
+theorem pairsSim_append {w : World} {m1 m2 : List (Nat × Nat)} (h1 : PairsSim w m1) (h2 : PairsSim w m2) :
+    PairsSim w (m1 ++ m2) := by
+  intro p hp
+  rcases List.mem_append.mp hp with h | h
+  · exact h1 p h
+  · exact h2 p h
+
 theorem remapSpec_simP {w : World} {m : List (Nat × Nat)} (h : PairsSim w m) (sp : DevSpec) :
     SpecSim w sp (remapSpec m sp) := by
   unfold remapSpec
@@ -970,22 +977,27 @@ theorem cloneNode_sim {allow : Bool} {rec : Nat → M Nat}
   sbind (copyProps_sim ns.props hK3) with pr s4 hK4 hl4 hpr
   sbind (copyMeta_sim ns.mstore hK4) with me s5 hK5 hl5 hme
   sbind (cloneOutputs_sim ns.outputs 0 s5 hK5) with outs s6 hK6 hl6 houts
-  sbind (allocNode_sim _ hK6) with n' s8 hK8 hl8 hn'
+  sbind (SGoodAt.getVm hK6) with vm s7 hK7 hl7 hq7
+  obtain ⟨rfl, rfl⟩ := hq7
+  sbind (SGoodAt.bookkeeping (m := checkSpecs allow ns s7.vm) hK7
+    (fun s => by rw [checkSpecs_state]; exact ⟨rfl, rfl⟩)) with u0 s7' hK7' hl7' hq7'
+  sbind (allocNode_sim _ hK7') with n' s8 hK8 hl8 hn'
   sbind (forM'_sim outs s8 hK8 (fun v _ s9 hK9 => setProducer_sim n' v hK9)) with u s9 hK9 hl9 hq9
   sbind (addUses_sim n' ins 0 s9 hK9) with u2 s10 hK10 hl10 hq10
-  have l2 : CoreLe s2.w s10.w := hl3.trans (hl4.trans (hl5.trans (hl6.trans (hl8.trans (hl9.trans hl10)))))
-  have l3 : CoreLe s3.w s10.w := hl4.trans (hl5.trans (hl6.trans (hl8.trans (hl9.trans hl10))))
-  have l4 : CoreLe s4.w s10.w := hl5.trans (hl6.trans (hl8.trans (hl9.trans hl10)))
-  have l5 : CoreLe s5.w s10.w := hl6.trans (hl8.trans (hl9.trans hl10))
-  have l7 : CoreLe s6.w s10.w := hl8.trans (hl9.trans hl10)
+  have l2 : CoreLe s2.w s10.w := hl3.trans (hl4.trans (hl5.trans (hl6.trans (hl7'.trans (hl8.trans (hl9.trans hl10))))))
+  have l3 : CoreLe s3.w s10.w := hl4.trans (hl5.trans (hl6.trans (hl7'.trans (hl8.trans (hl9.trans hl10)))))
+  have l4 : CoreLe s4.w s10.w := hl5.trans (hl6.trans (hl7'.trans (hl8.trans (hl9.trans hl10))))
+  have l5 : CoreLe s5.w s10.w := hl6.trans (hl7'.trans (hl8.trans (hl9.trans hl10)))
+  have l7 : CoreLe s7.w s10.w := hl7'.trans (hl8.trans (hl9.trans hl10))
   have l8 : CoreLe s8.w s10.w := hl9.trans hl10
   have hattrs' : All2 (AttrSim s10.w) ns.attrs attrs :=
     All2.mono (R := fun (ka : String × Nat) r => AttrSim s3.w ka r) (fun _ _ h => AttrSim.mono l3 h) hattrs
   refine SGoodAt.pure hK10 (NodeSim.mk n n' _ _ attrs (cNode_mono l2 (cNode_of hns))
     (cNode_mono l8 (cNode_ofCore hn')) rfl rfl rfl rfl rfl rfl
     (All2.mono (fun _ _ h => RefSim.mono l2 h) hins) (All2.mono (fun _ _ h => ValSim.mono l7 h) houts)
-    (attrsSim_of_all2 hattrs') rfl ?_ ?_ (remapDev_simP (ioMap_pairs
-      (All2.mono (fun _ _ h => RefSim.mono l2 h) hins) (All2.mono (fun _ _ h => ValSim.mono l7 h) houts)) ns.dev))
+    (attrsSim_of_all2 hattrs') rfl ?_ ?_ (remapDev_simP (pairsSim_append (ioMap_pairs
+      (All2.mono (fun _ _ h => RefSim.mono l2 h) hins) (All2.mono (fun _ _ h => ValSim.mono l7 h) houts))
+      (fun p hp => .inr ((hK7 p hp).mono l7))) ns.dev))
   · obtain ⟨d, a, b⟩ := hpr
     exact ⟨d, _, cDict_mono l4 a, cDict_mono l4 b, rfl⟩
   · obtain ⟨d, a, b⟩ := hme
